@@ -18,11 +18,13 @@ func main() {
 		}
 	}
 	r.Register("hist", dh.RunHist)
+	r.Register("src", dh.RunSrc)
 	r.Register("histf", dh.RunHistFresh)
 	r.Register("restart", dh.RunRestart)
 	if r.Replayed() {
 		return
 	}
+	dh.Source(r)
 	dh.Corpus(r)
 	dh.Generate(r, 2, []int{1, 2, 3}, dh.NCfg)
 	if r.Thorough() {
